@@ -42,7 +42,7 @@ def run(run, ix, tier):
     run.rule('B-R1', floor=1)
     run.rule('B-R3', floor=1)
     run.rule('B-R5', floor=5, desc='exact sources / direction-consistent intermediates in from_str')
-    run.rule('C-R7', floor=6, desc='interval literals: floor for lower, ceiling for upper, from the text')
+    run.rule('C-R7', floor=10, desc='interval literals: floor for lower, ceiling for upper, from the text')
     run.rule('B-R3t', floor=3, desc='(prec, rounding) threaded into from_str')
     eng = get_round_engine(ix)
     kernel_obligations(run, ix, ['from_str'], single=False, rule_single=None)
@@ -165,7 +165,9 @@ def run(run, ix, tier):
     check_keyword_independence(run, ix, 'B-R3t')
     check_interval_literals(run, ix, eng)
     check_shared_prefix_sign(run, ix)
+    check_interval_forms(run, ix)
     check_no_lossy_cache(run, ix)
+    check_literal_length(run, ix)
 
 
 def check_threading(run, ix):
@@ -244,10 +246,14 @@ def check_interval_literals(run, ix, eng):
 
 
 def check_shared_prefix_sign(run, ix):
-    """C-R7: in the form `x[y,z]e` (shared digits x) the two literals x+y+e and x+z+e are ordered
-    by the SIGN of the shared prefix: for a negative prefix the larger digits give the lower
-    endpoint.  The branch must therefore order the two texts under a test of the sign of x (or take
-    min/max of the converted values) before rounding lower with floor and upper with ceiling"""
+    """C-R7: in the form `x[y,z]e` (shared digits x) the two literals x+y+e and x+z+e denote the two
+    endpoints in an order that depends on the sign of x AND on the order in which the digit groups were
+    written (mpi_to_str prints the lower endpoint's digits first, so '-1.2[7, 3]').  Ordering by the sign
+    of the prefix alone reads one of the two spellings inverted; the branch must order the two texts by
+    VALUE (a comparison of both converted texts guarding the swap, or min/max of the converted values)
+    before rounding lower with floor and upper with ceiling.  The plain `[a, b]` case may be taken only
+    when the closing bracket ends the string: '[4.0, 6.0]e-20' is the shared-prefix form with an empty
+    prefix, and reading it as `[a, b]` applies the exponent to the upper endpoint only."""
     f = ix.func(LIBMPI, 'mpi_from_str')
     # the branch that splits on '[' after a prefix
     split = [x for x in _walk_own(f.node) if isinstance(x, ast.Assign) and isinstance(x.value, ast.Call) and
@@ -255,27 +261,87 @@ def check_shared_prefix_sign(run, ix):
              isinstance(x.targets[0], ast.Tuple)]
     if len(split) != 1:
         raise AnalysisError('mpi_from_str: shared-prefix form not found')
-    pre = norm(split[0].targets[0].elts[0])
-    body = None
     p = split[0]
     while p is not None and not (isinstance(getattr(p, '_parent', None), ast.If) and
                                  p in getattr(p._parent, 'orelse', [])):
         p = getattr(p, '_parent', None)
     holder = p._parent.orelse if p is not None else []
-    sign_tests = [x for st in holder for x in ast.walk(st) if isinstance(x, ast.If) and
-                  pre in [n.id for n in ast.walk(x.test) if isinstance(n, ast.Name)] and "'-'" in norm(x.test)]
+    plain_if = p._parent if p is not None else None
     minmax = [x for st in holder for x in ast.walk(st) if isinstance(x, ast.Call) and
               norm(x.func) in ('min', 'max', 'mpf_min_max', 'MIN', 'MAX')]
-    swaps = [x for t in sign_tests for x in ast.walk(t) if isinstance(x, ast.Assign) and
-             isinstance(x.targets[0], ast.Tuple) and isinstance(x.value, ast.Tuple) and
-             [norm(e) for e in x.targets[0].elts] == [norm(e) for e in reversed(x.value.elts)]]
-    if swaps or minmax:
-        run.ok('C-R7', "'x[y,z]e': the two literals are ordered by the sign of the shared prefix")
+    CMP = {'mpf_gt': 1, 'mpf_ge': 1, 'mpf_lt': -1, 'mpf_le': -1}
+    ordered = None
+    for st in holder:
+        for x in ast.walk(st):
+            if not (isinstance(x, ast.If) and isinstance(x.test, ast.Call) and norm(x.test.func) in CMP
+                    and len(x.test.args) == 2):
+                continue
+            conv = []
+            for a in x.test.args:
+                if isinstance(a, ast.Call) and norm(a.func) == 'from_str' and a.args and isinstance(a.args[0], ast.Name):
+                    conv.append((a.args[0].id, norm(a.args[2]) if len(a.args) > 2 else None))
+            swaps = [y for y in x.body if isinstance(y, ast.Assign) and isinstance(y.targets[0], ast.Tuple)
+                     and isinstance(y.value, ast.Tuple)
+                     and [norm(e) for e in y.targets[0].elts] == [norm(e) for e in reversed(y.value.elts)]]
+            if len(conv) != 2 or not swaps or conv[0][1] != conv[1][1]:
+                continue
+            lo, up = [norm(e) for e in swaps[0].targets[0].elts]
+            names = [c[0] for c in conv]
+            want = [lo, up] if CMP[norm(x.test.func)] == 1 else [up, lo]
+            # swap exactly when the text used as lower endpoint converts to the larger value
+            in_test = {id(c) for c in ast.walk(x.test)}
+            later = [c for c in ast.walk(f.node) if isinstance(c, ast.Call) and norm(c.func) == 'from_str'
+                     and c.lineno > x.lineno and id(c) not in in_test and c.args and isinstance(c.args[0], ast.Name)]
+            roles = {c.args[0].id: norm(c.args[2]) for c in later if len(c.args) > 2}
+            if names == want and roles.get(lo) == 'round_floor' and roles.get(up) == 'round_ceiling':
+                ordered = x
+    if ordered is not None or minmax:
+        run.ok('C-R7', "'x[y,z]e': the two literals are ordered by value before the directed conversions")
     else:
         run.fail(Finding('C-R7', LIBMPI, 'mpi_from_str', norm(split[0]),
-                         "in the form 'x[y,z]e' the literal with the smaller digits is always rounded as the "
-                         "lower endpoint; for a negative shared prefix it is the upper one, and the result is an "
-                         "inverted interval that does not contain the denoted range", line=split[0].lineno))
+                         "in the form 'x[y,z]e' the two literals are not ordered by value before the lower one is "
+                         "rounded down and the upper one up: one of '-1.2[3,7]' / '-1.2[7,3]' (the second is what "
+                         "mpi_to_str prints) is read as an inverted interval that does not contain the denoted "
+                         "range", line=split[0].lineno))
+    # the plain '[a, b]' case needs the closing bracket at the end of the string
+    t = norm(plain_if.test) if plain_if is not None else ''
+    if "[-1] == ']'" in t or "endswith(']')" in t:
+        run.ok('C-R7', "'[a, b]' is taken only when ']' ends the string (an exponent after ']' goes to the "
+               "shared-prefix form)")
+    else:
+        run.fail(Finding('C-R7', LIBMPI, 'mpi_from_str', 'if %s' % t,
+                         "a string that starts with '[' is always read as '[a, b]': '[4.0, 6.0]e-20' (printed by "
+                         "mpi_to_str in 'diff' mode) gets the exponent on the upper endpoint only, and the lower "
+                         "endpoint 4.0 lies above the denoted 4.0e-20", line=getattr(plain_if, 'lineno', None)))
+
+
+def check_interval_forms(run, ix):
+    """C-R7 (sibling agreement of the documented forms): both midpoint forms "a +- b[%]" and "a (b[%])" hand
+    a COMPUTED percent flag to mpi_from_str_a_b, and a test for the exponent letter is made on lower-cased
+    text (every other literal accepts 'E')."""
+    f = ix.func(LIBMPI, 'mpi_from_str')
+    calls = [c for c in _walk_own(f.node) if isinstance(c, ast.Call) and norm(c.func) == 'mpi_from_str_a_b']
+    if len(calls) < 2:
+        raise AnalysisError('mpi_from_str: the two midpoint forms were not found')
+    for c in calls:
+        flag = c.args[2] if len(c.args) > 2 else None
+        if isinstance(flag, ast.Constant):
+            run.fail(Finding('C-R7', LIBMPI, 'mpi_from_str', norm(c), "this midpoint form passes the constant %r as "
+                             "percent flag: the documented spelling with a trailing '%%' is rejected (the '%%' "
+                             "reaches from_str) although the sibling form accepts it" % (flag.value,), line=c.lineno))
+        else:
+            run.ok('C-R7', '%s: percent flag computed from the text' % norm(c))
+    etests = [t for t in _walk_own(f.node) if isinstance(t, ast.Compare) and isinstance(t.left, ast.Constant)
+              and t.left.value == 'e' and isinstance(t.ops[0], ast.In)]
+    lowered = any(isinstance(x, ast.Call) and isinstance(x.func, ast.Attribute) and x.func.attr == 'lower'
+                  for x in _walk_own(f.node))
+    for t in etests:
+        if lowered:
+            run.ok('C-R7', "`%s` is tested on lower-cased text" % norm(t))
+        else:
+            run.fail(Finding('C-R7', LIBMPI, 'mpi_from_str', norm(t), "the exponent letter is looked for in lower "
+                             "case only and the text is never lower-cased: '1.2[3,7]E5' is rejected while "
+                             "'1.2[3,7]e5' and every plain literal with 'E' are accepted", line=t.lineno))
 
 
 def check_no_lossy_cache(run, ix):
@@ -288,3 +354,127 @@ def check_no_lossy_cache(run, ix):
                              'a new memo table on the literal-conversion path is not classified; '
                              'a cache of parsed literals must be keyed by precision AND rounding mode',
                              line=getattr(f, 'lineno', None)))
+
+
+# --------------------------------------------------------------------------- L-R1
+STR_METHODS = {'lower', 'upper', 'strip', 'rstrip', 'lstrip', 'replace', 'join', 'format'}
+INT_STR_LIMIT_MIN = 640        # smallest value sys.set_int_max_str_digits accepts; the default is 4300
+
+
+class StrKinds(object):
+    """which names of a function hold text ('S'), lists of text ('L') or single characters ('C')"""
+
+    def __init__(self, fn):
+        self.kind = {}
+        recv = {x.value.id for x in ast.walk(fn) if isinstance(x, ast.Attribute) and isinstance(x.value, ast.Name)
+                and x.attr in STR_METHODS | {'split', 'startswith', 'endswith'}}
+        for a in fn.args.args:
+            if a.arg in recv:
+                self.kind[a.arg] = 'S'
+        for _ in range(4):
+            for st in _walk_own(fn):
+                if isinstance(st, ast.Assign):
+                    k = self.of(st.value)
+                    for t in st.targets:
+                        self.bind(t, k)
+                elif isinstance(st, ast.AugAssign) and isinstance(st.target, ast.Name):
+                    if self.of(st.value) == 'S' or self.kind.get(st.target.id) == 'S':
+                        self.kind[st.target.id] = 'S'
+
+    def bind(self, t, k):
+        if isinstance(t, ast.Name):
+            if k:
+                self.kind[t.id] = k
+        elif isinstance(t, (ast.Tuple, ast.List)) and k == 'L':
+            for e in t.elts:
+                self.bind(e, 'S')
+
+    def of(self, e):
+        if isinstance(e, ast.Constant) and isinstance(e.value, str):
+            return 'S' if len(e.value) > 1 else 'C'
+        if isinstance(e, ast.Name):
+            return self.kind.get(e.id)
+        if isinstance(e, ast.Call) and isinstance(e.func, ast.Attribute):
+            if e.func.attr in STR_METHODS and self.of(e.func.value) in ('S', 'C', None):
+                return 'S' if (self.of(e.func.value) or e.func.attr in ('lower', 'strip', 'rstrip', 'lstrip',
+                                                                      'replace')) else None
+            if e.func.attr == 'split':
+                return 'L'
+        if isinstance(e, ast.Subscript):
+            k = self.of(e.value)
+            if k == 'L':
+                return 'L' if isinstance(e.slice, ast.Slice) else 'S'
+            if k == 'S':
+                return 'S' if isinstance(e.slice, ast.Slice) else 'C'
+        if isinstance(e, ast.BinOp) and isinstance(e.op, ast.Add):
+            if 'S' in (self.of(e.left), self.of(e.right)):
+                return 'S'
+        if isinstance(e, ast.IfExp):
+            return self.of(e.body) or self.of(e.orelse)
+        return None
+
+
+def _length_guarded(call, arg):
+    """the int() call sits in the true branch of `if len(<arg>) <= C` with C below every possible limit"""
+    p, child = getattr(call, '_parent', None), call
+    while p is not None and not isinstance(p, ast.FunctionDef):
+        if isinstance(p, ast.If) and child in p.body:
+            t = p.test
+            if isinstance(t, ast.Compare) and len(t.ops) == 1 and isinstance(t.ops[0], (ast.LtE, ast.Lt)) \
+                    and norm(t.left) == 'len(%s)' % norm(arg) and isinstance(t.comparators[0], ast.Constant) \
+                    and isinstance(t.comparators[0].value, int) and t.comparators[0].value <= INT_STR_LIMIT_MIN:
+                return t.comparators[0].value
+        child, p = p, getattr(p, '_parent', None)
+    return None
+
+
+def check_literal_length(run, ix):
+    """L-R1.  "Any number of digits": CPython refuses int(<text>) beyond sys.get_int_max_str_digits()
+    (4300 by default), so a literal's digit string may reach int() only in pieces whose length is bounded
+    by a constant below that limit.  Every int(<text>) call in libmpf.py / libmpi.py is classified by a small
+    text-kind inference (text / list of text / single character): a call on unbounded text must sit under
+    `if len(text) <= C` with C <= 640; the literal parsers must route their digit strings through the
+    chunking helper."""
+    run.rule('L-R1', floor=5, desc='digit strings of a literal reach int() only in bounded pieces')
+    n = 0
+    for rel in (LIBMPF, LIBMPI):
+        for f in list(ix.module(rel).funcs.values()):
+            kinds = None
+            for c in _walk_own(f.node):
+                if not (isinstance(c, ast.Call) and isinstance(c.func, ast.Name) and c.args):
+                    continue
+                if c.func.id not in ('int', 'MPZ', 'str_to_int', 'long'):
+                    continue
+                if kinds is None:
+                    kinds = StrKinds(f.node)
+                k = kinds.of(c.args[0])
+                if k not in ('S', 'L'):
+                    if k == 'C':
+                        run.ok('L-R1', '%s: %s converts a single character' % (f.qualname, norm(c)))
+                    continue
+                n += 1
+                if c.func.id == 'str_to_int':
+                    run.ok('L-R1', '%s: %s goes through the chunking helper' % (f.qualname, norm(c)))
+                    continue
+                g = _length_guarded(c, c.args[0])
+                if g is not None:
+                    run.ok('L-R1', '%s: %s only for len <= %d' % (f.qualname, norm(c), g))
+                else:
+                    run.fail(Finding('L-R1', rel, f.qualname, norm(c), 'a text of unbounded length is handed to %s(): '
+                                     'beyond sys.get_int_max_str_digits() (4300) digits the interpreter raises '
+                                     'ValueError, so a long literal (mpf(repr(x)) at mp.dps = 5000) cannot be '
+                                     'converted' % c.func.id, line=c.lineno))
+    # the helper must split on the way down: a recursive call on both halves
+    h = ix.find_func(LIBMPF, 'str_to_int')
+    if h is None:
+        if any(f.rule == 'L-R1' for f in run.findings):
+            return                      # the unguarded sites are the report
+        raise AnalysisError('str_to_int (chunked conversion of digit strings) not found')
+    rec = [c for c in _walk_own(h.node) if isinstance(c, ast.Call) and norm(c.func) == 'str_to_int'
+           and c.args and isinstance(c.args[0], ast.Subscript) and isinstance(c.args[0].slice, ast.Slice)]
+    if len(rec) >= 2:
+        run.ok('L-R1', 'str_to_int recurses on slices of its argument (%d calls)' % len(rec))
+    else:
+        run.fail(Finding('L-R1', LIBMPF, 'str_to_int', 'def str_to_int', 'the helper does not split long strings',
+                         line=h.lineno))
+    run.stats['int_of_text_sites'] = n
